@@ -64,6 +64,7 @@ func (l *Lexer) NextToken() (err error) {
 }
 
 func (l *Lexer) nextToken(noPanic bool) {
+	verifStep()
 	l.lastTokenKind = l.Token.Kind
 	l.Token = token.Token{}
 
